@@ -16,6 +16,7 @@ pub mod c13;
 pub mod c14;
 pub mod c15;
 pub mod c16;
+pub mod c19;
 pub mod linerules;
 
 pub const TABLE: &[(&str, fn(&mut Run))] = &[
@@ -35,4 +36,5 @@ pub const TABLE: &[(&str, fn(&mut Run))] = &[
     ("C14", c14::run),
     ("C15", c15::run),
     ("C16", c16::run),
+    ("C19", c19::run),
 ];
